@@ -154,14 +154,14 @@ pub fn run(args: &Args) -> Report {
                 let s2 = store.clone();
                 let b = e.bytes.clone();
                 std::thread::spawn(move || {
-                    let ev = unsafe { Event::delineate(&b).unwrap() };
-                    s2.store_event(ev).map_err(|e| format!("{e}"))
+                    let ev = pocket_types::OwnedEvent(b);
+                    s2.store_event(&ev).map_err(|e| format!("{e}"))
                 })
                 .join()
                 .unwrap_or(Err("thread panicked".into()))
             } else {
-                let ev = unsafe { Event::delineate(&e.bytes).unwrap() };
-                store.store_event(ev).map_err(|e| format!("{e}"))
+                let ev = pocket_types::OwnedEvent(e.bytes.clone());
+                store.store_event(&ev).map_err(|e| format!("{e}"))
             };
             let off = match res {
                 Ok(o) => o,
